@@ -69,9 +69,13 @@ impl<T: Send> BoundedSyncSender<T> {
   }
 
   pub fn to_async(self) -> BoundedAsyncSender<T> {
+    // a closed handle stays closed across the conversion
+    let closed = self.closed.load(Ordering::Relaxed);
     let shared = unsafe { std::ptr::read(&self.shared) };
     mem::forget(self);
-    BoundedAsyncSender::from_shared(shared)
+    let converted = BoundedAsyncSender::from_shared(shared);
+    converted.closed.store(closed, Ordering::Relaxed);
+    converted
   }
 
   pub fn try_send(&self, item: T) -> Result<(), TrySendError<T>> {
@@ -381,9 +385,13 @@ impl<T: Send> BoundedSyncReceiver<T> {
   }
 
   pub fn to_async(self) -> BoundedAsyncReceiver<T> {
+    // a closed handle stays closed across the conversion
+    let closed = self.closed.load(Ordering::Relaxed);
     let shared = unsafe { std::ptr::read(&self.shared) };
     mem::forget(self);
-    BoundedAsyncReceiver::from_shared(shared)
+    let converted = BoundedAsyncReceiver::from_shared(shared);
+    converted.closed.store(closed, Ordering::Relaxed);
+    converted
   }
 
   pub fn try_recv(&self) -> Result<T, TryRecvError> {
